@@ -840,6 +840,7 @@ fn c09(g: &mut Gen) {
 
 // ------------------------------------------------------------------------------------------------ C10
 fn c10(g: &mut Gen) {
+    list_size_cases(g);
     let full = g.thorough;
     let mut r = g.rng.fork();
     let mut grid: Vec<(String, Vec<u8>)> = Vec::new();
@@ -1025,8 +1026,31 @@ fn c01(g: &mut Gen) {
     }
 }
 
+/// every answerable request on contexts whose configured lists are empty or so long that their count wraps in a u8
+fn list_size_cases(g: &mut Gen) {
+    for nv in [0usize, 1, 255, 256, 257, 512] {
+        for nmt in [0usize, 30, 255, 256, 257] {
+            if nv == 1 && nmt == 30 { continue; }
+            let mut cfg = gen_cfg(&mut g.rng);
+            cfg.vendor_ids = (0..nv).map(|i| ((i % 2) as u8, 0x0102_0304u32.wrapping_mul(i as u32 + 3), 0x0A0B + i as u16)).collect();
+            cfg.msg_types = (0..nmt).map(|i| (i * 7) as u8).collect();
+            g.case("listsize", &cfg, |s, r| {
+                for cmd in 1..=6u8 {
+                    let p = answerable_request(s_nvend(s).max(1), cmd, r.below(128) as u8, 0, r);
+                    s.op(Op::Decode(p.clone()));
+                    let b = vec![0u8; 600]; s.op(Op::Process(p, b));
+                }
+                for sel in [0u8, 3, 255, (nv.wrapping_sub(1) & 0xFF) as u8] {
+                    let p = request(5, 0, 6, &[sel], r); s.op(Op::Process(p, vec![0u8; 64]));
+                }
+            });
+        }
+    }
+}
+
 // ------------------------------------------------------------------------------------------------ C11
 fn c11(g: &mut Gen) {
+    list_size_cases(g);
     let full = g.thorough;
     let mut r = g.rng.fork();
     let mut grid: Vec<(String, Vec<u8>)> = Vec::new();
@@ -1105,6 +1129,7 @@ fn answerable_request(nvend: usize, cmd: u8, src: u8, inst: u8, r: &mut Rng) -> 
 
 // ------------------------------------------------------------------------------------------------ C12
 fn c12(g: &mut Gen) {
+    list_size_cases(g);
     // requester 0..127 x instance 0..31 x six commands
     for src in 0..128u32 {
         let cfg = gen_cfg(&mut g.rng);
@@ -1117,6 +1142,25 @@ fn c12(g: &mut Gen) {
                     let b = pbuf(r, 64, 39);
                     s.op(Op::Process(p, b));
                 }
+            }
+        });
+    }
+    // requests exactly as long as their answers, addressed to the EID the responder holds, with one free data byte
+    // swept over all 256 values (so the request's PEC takes every value, the answer's included)
+    for cmd in [2u8, 3, 5] {
+        let mut cfg = gen_cfg(&mut g.rng);
+        cfg.msg_types.truncate(30);
+        let nmt = cfg.msg_types.len();
+        g.case("samelen", &cfg, |s, r| {
+            let e = 1 + r.below(254) as u8;
+            let src = r.below(128) as u8;
+            let p = request(src, 0, 1, &[0, e], r); s.op(Op::Process(p, vec![0u8; 32]));
+            let (a, _, _) = crate::exec::hint();
+            let dl = match cmd { 2 => 4, 3 => 17, _ => 2 + nmt };
+            for v in 0..256u32 {
+                let mut d = vec![0u8; dl]; d[dl - 1] = v as u8;
+                let p = build_packet(a & 0x7F, src, 1, e, src, 0xC8, 0, &ctl_body(true, false, false, 0, cmd, None, &d));
+                s.op(Op::Process(p, vec![0u8; 64]));
             }
         });
     }
@@ -1264,6 +1308,23 @@ fn c13(g: &mut Gen) {
             }
         }
     }
+    // the same, with the accessor's value swept over all 256 bytes (and, through a free requester address, the
+    // request's PEC taking many values): no relation between what a half holds and any byte of the request matters
+    for op in 0..2u8 {
+        for half in [true, false] {
+            let cfg = gen_cfg(&mut g.rng);
+            g.case("reassign-sweep", &cfg, |s, r| {
+                let x = 1 + r.below(254) as u8;
+                for w in 0..256u32 {
+                    s.op(Op::SetEid(!half, x));
+                    s.op(Op::SetEid(half, w as u8));
+                    let p = request(r.below(128) as u8, 0, 1, &[op, x], r);
+                    s.op(Op::Process(p, vec![0u8; 24]));
+                }
+                let q = request(9, 0, 2, &[], r); let b = pbuf(r, 64, 0); s.op(Op::Process(q, b));
+            });
+        }
+    }
     // every EID 0x01..0xFE through both assigning operations
     let cfg = gen_cfg(&mut g.rng);
     g.case("eids", &cfg, |s, r| {
@@ -1305,6 +1366,16 @@ fn c14(g: &mut Gen) {
             });
         }
     }
+    // no vendor set at all, and counts that wrap in a u8
+    for n in [0usize, 255, 256, 257, 512] {
+        let mut cfg = gen_cfg(&mut g.rng);
+        cfg.vendor_ids = (0..n).map(|i| ((i % 2) as u8, 0x0102_0304u32.wrapping_mul(i as u32 + 3), 0x0A0B + i as u16)).collect();
+        g.case("count", &cfg, |s, r| {
+            for sel in [0u8, 1, 3, 254, 255, (n.wrapping_sub(1) & 0xFF) as u8, (n & 0xFF) as u8] {
+                let p = request(5, 0, 6, &[sel], r); let b = rbuf(r, 1); s.op(Op::Decode(p.clone())); s.op(Op::Process(p, b));
+            }
+        });
+    }
     // every order of selectors for n <= 4
     for n in 1..=4usize {
         let mut perm: Vec<u8> = (0..n as u8).collect();
@@ -1326,6 +1397,7 @@ fn permute(a: &mut Vec<u8>, k: usize, out: &mut Vec<Vec<u8>>) {
 
 // ------------------------------------------------------------------------------------------------ C15
 fn c15(g: &mut Gen) {
+    list_size_cases(g);
     let reps = g.n(4, 150);
     for n in 0..=30usize {
         for _ in 0..reps {
